@@ -118,6 +118,17 @@ func (fr *Frame) libCall(i *ssa.Call, callee *ssa.Function, args []Val, st *Stat
 	case "strconv.Atoi":
 		use("STR: strconv.Atoi as uninterpreted functions of its argument")
 		fr.regs[i] = Tuple{TV{T: mk(SInt, "atoi_val", ts(0))}, TV{T: mk(SErr, "atoi_err", ts(0))}}
+	case "strconv.ParseInt":
+		// ParseInt(s, 10, 0|64) is what Atoi computes (int is 64 bits wide on the platforms the module targets)
+		if b, ok := i.Call.Args[1].(*ssa.Const); ok && b.Value != nil && b.Value.ExactString() == "10" {
+			if w, ok := i.Call.Args[2].(*ssa.Const); ok && w.Value != nil && (w.Value.ExactString() == "0" || w.Value.ExactString() == "64") {
+				use("STR: strconv.ParseInt(s, 10, 0|64) is strconv.Atoi (64-bit int)")
+				fr.regs[i] = Tuple{TV{T: mk(SInt, "atoi_val", ts(0))}, TV{T: mk(SErr, "atoi_err", ts(0))}}
+				break
+			}
+		}
+		x.usedAssumptions["EXT: "+name+" treated as an arbitrary total function without side effects"] = true
+		fr.setResult(i, x.havocResultsSig(i.Call.Signature(), "ext"), st)
 	case "strconv.ParseFloat":
 		use("STR: strconv.ParseFloat as uninterpreted functions of its argument")
 		fr.regs[i] = Tuple{TV{T: mk(SF64, "pf_val", ts(0))}, TV{T: mk(SErr, "pf_err", ts(0))}}
